@@ -106,6 +106,14 @@ Definition ext_convert (t : ity) (p : pattern) (t' : ity) (e' : extents) : exten
     {| pat := p; dyn := fill_dyn p (fun i => cast t (extent t' e' i)) |}
   else ext_default p.
 
+(* is the converting constructor extents<t, p...>(extents<t', p'...> const&) IMPLICIT?  Its explicit-specifier is
+   ((Extents != dynamic_extent and OtherExtents == dynamic_extent) or ...)
+   or numeric_limits<IndexType>::max() < numeric_limits<OtherIndexType>::max();
+   the same-layout mapping conversions and the mdspan conversion inherit it (explicit(not is_convertible_v<...>)) *)
+Definition conv_implicit (t : ity) (p : pattern) (t' : ity) (p' : pattern) : bool :=
+  forallb (fun ab => match fst ab, snd ab with Some _, None => false | _, _ => true end) (combine p p')
+  && (imax t' <=? imax t).
+
 (* operator==(extents<I1, E1...>, extents<I2, E2...>): false for different ranks, otherwise the loop
    `if (cmp_not_equal(lhs.extent(i), rhs.extent(i))) return false` -- cmp_not_equal compares the mathematical
    values whatever the two index types are.  layout_left/right::mapping::operator== compares the extents. *)
